@@ -101,6 +101,14 @@ func run(c *core.Ctx) {
 	c.Rule("Layer A: every reduced rule set of the scope (terminal symmetry broken) x input configurations x 6 table-option subsets that lalr.Compile accepts without conflicts x every token string of length<=L over the terminals x every input; non-trivial = grammar x config with >=2 sentences <=L and >=1 rejected string; states = distinct (grammar,config,options,parser stack) configurations visited, transitions = parser steps")
 	c.Set("L", L)
 	var st stats
+	if !c.Quick() {
+		// thorough: the generated-code layer first, with 40% of the budget, so that a large Layer-A
+		// scope cannot starve it
+		full := c.Deadline
+		c.Deadline = c.Start.Add(full.Sub(c.Start) * 2 / 5)
+		layerB(c, 6000)
+		c.Deadline = full
+	}
 	for _, sc := range scopes(c) {
 		if c.Expired() {
 			c.Capped(fmt.Sprintf("scope %+v not started (budget)", sc))
@@ -133,8 +141,6 @@ func run(c *core.Ctx) {
 	}
 	if c.Quick() {
 		layerB(c, 240)
-	} else {
-		layerB(c, 6000)
 	}
 	c.States(st.states)
 	c.Transitions(st.transitions)
